@@ -3,7 +3,7 @@ from registry_common import COMMON_ASSUME
 ENTRY = dict(
         title="Event dispatch: ordered callbacks, consistent stored value, once means once",
         design_ref="DESIGN.md section 6 / C13",
-        prop_modules=["C13", "C13Spec", "C13Filter"],
+        prop_modules=["C13", "C13Spec", "C13Filter", "C13Table"],
         technique="Lean 4 interleaving machine (API calls, 'dispatch task i moves', 'waiter j moves', 'clock advances') with one inductive "
                   "invariant over ALL event lists and ALL callback scripts + trace-inclusion correspondence: a real EventManager with callbacks "
                   "suspended on harness-controlled futures under a virtual-time loop; the Lean driver replays the schedule the harness chose",
